@@ -43,6 +43,7 @@ func groups(tier string) []group {
 		gs = append(gs, group{"typedef/" + sc.String(), func(tier string, yield func(*scen) bool) { enumScalarTD(tier, sc, true, yield) }})
 	}
 	gs = append(gs, group{"includes", enumIncludes})
+	gs = append(gs, group{"sibling-containers", enumSiblingContainers})
 	gs = append(gs, group{"leaves/0", func(tier string, y func(*scen) bool) { enumLeaves(tier, 0, y) }})
 	gs = append(gs, group{"leaves/1", func(tier string, y func(*scen) bool) { enumLeaves(tier, 1, y) }})
 	for m := 0; m < 32; m += 4 {
@@ -1142,6 +1143,39 @@ func enumExpansion(tier string, yield func(*scen) bool) {
 				if !emit(fmt.Sprintf("list-of-i64-then-%s", payload), root, tbin.Struct(tbin.F(1, l), tbin.F(2, pv))) {
 					return
 				}
+			}
+		}
+	}
+}
+
+
+// enumSiblingContainers: several nested container types in ONE struct that share their outer shape and differ
+// only in the innermost element / key type (every field must keep its own descriptor).
+func enumSiblingContainers(tier string, yield func(*scen) bool) {
+	sc := tbin.Sc
+	root := tbin.StructS(
+		tbin.SF(1, tbin.ListS(tbin.ListS(sc(tbin.I32)))), tbin.SF(2, tbin.ListS(tbin.ListS(sc(tbin.STRING)))), tbin.SF(3, tbin.ListS(tbin.ListS(sc(tbin.DOUBLE)))),
+		tbin.SF(4, tbin.MapS(sc(tbin.STRING), tbin.ListS(sc(tbin.I64)))), tbin.SF(5, tbin.MapS(sc(tbin.STRING), tbin.ListS(sc(tbin.I32)))),
+		tbin.SF(6, tbin.ListS(tbin.MapS(sc(tbin.STRING), sc(tbin.I32)))), tbin.SF(7, tbin.ListS(tbin.MapS(sc(tbin.STRING), sc(tbin.STRING)))),
+		tbin.SF(8, tbin.MapS(sc(tbin.I32), tbin.MapS(sc(tbin.I32), sc(tbin.BOOL)))), tbin.SF(9, tbin.MapS(sc(tbin.I32), tbin.MapS(sc(tbin.I64), sc(tbin.BOOL)))),
+		tbin.SF(10, tbin.SetS(tbin.ListS(sc(tbin.I16)))), tbin.SF(11, tbin.SetS(tbin.ListS(sc(tbin.BYTE)))),
+	)
+	// declaration orders: as above and reversed (whichever type is parsed first must not win)
+	rev := tbin.StructS()
+	for i := len(root.Fields) - 1; i >= 0; i-- {
+		rev.Fields = append(rev.Fields, root.Fields[i])
+	}
+	for ri, r := range []*tbin.Shape{root, rev} {
+		prog := jt.NewProg(fmt.Sprintf("sibling-containers/%d", ri), r)
+		for n := 1; n <= 2; n++ {
+			g := &tbin.Gen{Boundary: n == 2}
+			v := g.Build(r, 2)
+			j, ok := prog.Doc(v, r, jt.DocOpt{})
+			if !ok {
+				continue
+			}
+			if !yield(&scen{op: "shape", trigger: "sibling-containers", note: fmt.Sprintf("order %d values %d", ri, n), prog: prog, optName: "none", doc: jt.Render(j, jt.Spell{}), want: tbin.Bytes(v), ks: []int{0, 3}}) {
+				return
 			}
 		}
 	}
